@@ -143,10 +143,6 @@ func (in *Interp) installStubs3() {
 		return Iface{T: a[0].(Iface).T, V: n}
 	}
 	// ---- math/big (rest) ----
-	S["(*math/big.Int).Abs"] = func(in *Interp, a []Value) Value {
-		x := in.bigGet(a[1].(Ptr))
-		return in.bigSet(a[0].(Ptr), st.Ite(st.Bin(smt.OpBvSlt, x, st.BVConstI(0, BigW)), st.Un(smt.OpBvNeg, x), x))
-	}
 	bigConc := func(in *Interp, p Ptr, what string) *big.Int {
 		t := in.bigGet(p)
 		if !t.IsConst() {
@@ -154,6 +150,10 @@ func (in *Interp) installStubs3() {
 			in.StubHits["concretized: "+what]++
 		}
 		return smt.Signed(t.Val, BigW)
+	}
+	S["(*math/big.Int).Abs"] = func(in *Interp, a []Value) Value {
+		x := in.bigGet(a[1].(Ptr))
+		return in.bigSet(a[0].(Ptr), st.Ite(st.Bin(smt.OpBvSlt, x, st.BVConstI(0, BigW)), st.Un(smt.OpBvNeg, x), x))
 	}
 	S["(*math/big.Int).Append"] = func(in *Interp, a []Value) Value {
 		v := bigConc(in, a[0].(Ptr), "big.Int.Append")
@@ -195,6 +195,20 @@ func (in *Interp) installStubs3() {
 		x, y := in.bigGet(a[1].(Ptr)), in.bigGet(a[2].(Ptr))
 		in.bigSet(a[3].(Ptr), st.Bin(smt.OpBvSrem, x, y))
 		return Tuple{in.bigSet(a[0].(Ptr), st.Bin(smt.OpBvSdiv, x, y)), a[3]}
+	}
+	S["(*math/big.Int).BitLen"] = func(in *Interp, a []Value) Value {
+		return st.BVConstI(int64(bigConc(in, a[0].(Ptr), "big.Int.BitLen").BitLen()), 64)
+	}
+	S["(*math/big.Int).IsUint64"] = func(in *Interp, a []Value) Value {
+		return st.BoolConst(bigConc(in, a[0].(Ptr), "big.Int.IsUint64").IsUint64())
+	}
+	S["(*math/big.Int).Uint64"] = func(in *Interp, a []Value) Value { return st.Resize(in.bigGet(a[0].(Ptr)), 64, false) }
+	S["(*math/big.Int).Text"] = func(in *Interp, a []Value) Value {
+		return Str{S: bigConc(in, a[0].(Ptr), "big.Int.Text").Text(in.concInt(a[1], "base"))}
+	}
+	S["(*math/big.Int).CmpAbs"] = func(in *Interp, a []Value) Value {
+		x, y := bigConc(in, a[0].(Ptr), "big.Int.CmpAbs"), bigConc(in, a[1].(Ptr), "big.Int.CmpAbs")
+		return st.BVConstI(int64(x.CmpAbs(y)), 64)
 	}
 	S["(*math/big.Int).IsInt64"] = func(in *Interp, a []Value) Value {
 		x := in.bigGet(a[0].(Ptr))
